@@ -666,6 +666,8 @@ pub fn run_cluster(sc: &Scenario, prop: &str) -> Result<RunResult, String> {
         if !sc.cfg.real_membership && sc.cfg.repair_interval_ms >= 3_600_000 && up_now.len() >= 2 {
             let gone = up_now[(sc.closing_seed % up_now.len() as u64) as usize];
             let rest: BTreeSet<u8> = up_now.iter().copied().filter(|n| *n != gone).collect();
+            // no second identity may keep the departed node's address in anybody's view
+            cl.shared.borrow_mut().ghosts.clear();
             for n in &rest {
                 cl.set_view(*n, &rest);
             }
